@@ -5,7 +5,7 @@ import shutil
 import subprocess
 import tempfile
 
-from lib.facts import norm, direct_place, const_int, place_fields, nophi, origins
+from lib.facts import norm, direct_place, const_int, place_fields, nophi, origins, place_root_fields
 from lib import tables, extract
 from .common import Recorder
 
@@ -642,7 +642,7 @@ def r01_6(ctx, prog, crate):
     calls = [c for c in bl.live_calls() if c.callee == bt.path]
     stores = []
     for bi, si, s in bl.stmts():
-        if s["k"] == "assign" and s["p"]["l"] == 1 and place_fields(s["p"]) == ("thread_count",):
+        if s["k"] == "assign" and s["p"]["proj"] and place_root_fields(bl, s["p"]) == (1, ("thread_count",)):
             stores.append((bi, si, s))
     ok = len(calls) == 1 and len(stores) == 1
     if ctx.check(ok, "R01.6", ["bench_loop_local", "forces-single-thread"],
@@ -659,7 +659,7 @@ def r01_6(ctx, prog, crate):
                   "the shared loop runs on a different context", calls[0].line())
     # (c) aux count = thread_count - 1 (also C08/R08.2); no other writer of thread_count between
     for bi, si, s in bt.stmts():
-        if s["k"] == "assign" and s["p"]["l"] == 1 and place_fields(s["p"]) == ("thread_count",):
+        if s["k"] == "assign" and s["p"]["proj"] and place_root_fields(bt, s["p"]) == (1, ("thread_count",)):
             ctx.fail("R01.6", ["bench_loop_threaded", "rewrites-thread_count"], "the shared loop overwrites thread_count", bt.where(bi))
     pe = [c for c in bt.live_calls() if c.callee == "util::thread::pool::ThreadPool::par_extend"]
     if ctx.check(len(pe) == 1, "R01.6", ["bench_loop_threaded", "one-par_extend"], "par_extend sites: %d" % len(pe), bt.where(0)):
